@@ -46,6 +46,10 @@ struct Fix {
     Obj<ST::utf32_buffer> b32; std::u32string b32v;
     Obj<ST::wchar_buffer> bw; std::wstring bwv;
     Obj<ST::string_stream> ss; S ssv;
+    // targets that got their value by copy construction (their in-object array was never written when the value is long)
+    Obj<ST::char_buffer> cbc; S cbcv;
+    Obj<ST::string> sc; S scv;
+    Obj<ST::utf32_buffer> b32c; std::u32string b32cv;
     std::string stds;
     std::wstring stdw;
     // ill-formed text (what makes the repairing / substituting paths allocate) and its expected repair
@@ -73,6 +77,9 @@ struct Fix {
         b16.make(b16v.data(), b16v.size());
         b32.make(b32v.data(), b32v.size());
         bw.make(bwv.data(), bwv.size());
+        cbc.make(*cb); cbcv = cbv;
+        sc.make(*s[1]); scv = sv[1];
+        b32c.make(*b32); b32cv = b32v;
         ss.make();
         ssv = text(long_target ? 250 + rng.below(600) : rng.below(200));
         ss->append(ssv.data(), ssv.size());
@@ -98,7 +105,7 @@ struct Fix {
     void teardown()
     {
         for (auto &x : s) x.kill();
-        cb.kill(); b16.kill(); b32.kill(); bw.kill(); ss.kill();
+        cb.kill(); b16.kill(); b32.kill(); bw.kill(); ss.kill(); cbc.kill(); sc.kill(); b32c.kill();
     }
 
     template <typename T>
@@ -154,6 +161,9 @@ struct Fix {
         if (b32.p) check_buffer<char32_t>("utf32_buffer", b32, b32v);
         if (bw.p) check_buffer<wchar_t>("wchar_buffer", bw, bwv);
         if (ss.p) check_stream();
+        if (cbc.p) check_buffer<char>("copy-constructed char_buffer", cbc, cbcv);
+        if (b32c.p) check_buffer<char32_t>("copy-constructed utf32_buffer", b32c, b32cv);
+        if (sc.p) check_string("copy-constructed string", sc, scv);
         // can still be assigned to and read
         if (s[0].p) { *s[0] = ST::string("assigned after the fault, long enough for the heap"); if (s[0]->size() != 50) fail("unusable-after-fault", "target string"); }
         if (cb.p) { *cb = ST::char_buffer("xyz", 3); if (cb->size() != 3) fail("unusable-after-fault", "char_buffer"); }
@@ -194,6 +204,12 @@ static std::vector<Op> table()
     OP("utf16_buffer.allocate(n,fill)", f.b16->allocate(100, u'k'); E(f.b16v.assign(100, u'k')));
     OP("utf32_buffer.allocate(n,fill)", f.b32->allocate(100, U'k'); E(f.b32v.assign(100, U'k')));
     OP("wchar_buffer.allocate(n)", f.bw->allocate(100); for (size_t i = 0; i < 100; ++i) (*f.bw)[i] = 0; E(f.bwv.assign(100, L'\0')));
+    OP("copy-constructed char_buffer=char_buffer (long source)", ST::char_buffer src(70, 'z'); *f.cbc = src; E(f.cbcv.assign(70, 'z')));
+    OP("copy-constructed utf32_buffer=utf32_buffer (long source)", ST::utf32_buffer src(60, U'z'); *f.b32c = src; E(f.b32cv.assign(60, U'z')));
+    OP("copy-constructed string=string", *f.sc = *f.s[2]; E(f.scv = f.sv[2]));
+    OP("copy-constructed string.set(const char*)", f.sc->set(f.sv[2].c_str()); E(f.scv = f.sv[2]));
+    OP("utf32_to_wchar / wchar_to_utf32 (straight copies)", ST::wchar_buffer a = ST::utf32_to_wchar(*f.b32); ST::utf32_buffer b = ST::wchar_to_utf32(*f.bw); ST::wchar_buffer c = ST::utf32_to_wchar(f.b32v.data(), f.b32v.size()); (void)a; (void)b; (void)c);
+    OP("utf16_to_wchar / wchar_to_utf16", ST::wchar_buffer a = ST::utf16_to_wchar(*f.b16); ST::utf16_buffer b = ST::wchar_to_utf16(*f.bw); (void)a; (void)b);
     OP("char_buffer.allocate(n,0) zero fill", f.cb->allocate(100, '\0'); E(f.cbv.assign(100, '\0')));
     OP("utf16_buffer.allocate(n,0) zero fill", f.b16->allocate(64, u'\0'); E(f.b16v.assign(64, u'\0')));
     OP("utf32_buffer.allocate(n,0) zero fill", f.b32->allocate(64, U'\0'); E(f.b32v.assign(64, U'\0')));
@@ -324,7 +340,7 @@ static void body()
 {
     vrt::require("faults.injected", 500);
     vrt::require("faults.bad_alloc_reached_caller", 500);
-    vrt::require("ops.covered", 113);
+    vrt::require("ops.covered", 119);
     static const std::vector<Op> ops = table();
     const size_t nvar = vrt::tier_count(40, 160);      // random fillings per (operation, storage-mode combination)
     vrt::note(sfmt("fault enumeration: %zu allocating operations x 4 storage-mode combinations (short/long target x short/long argument) x %zu random fillings x every allocation index k = 1..N of the call", ops.size(), nvar));
@@ -373,7 +389,8 @@ static void body()
                 f.setup(fr, lt, la);
             }
             // remember the pre-fault values: the op bodies update the expectations only when they complete
-            S sv0 = f.sv[0], sv1 = f.sv[1], sv2 = f.sv[2], cbv = f.cbv, ssv = f.ssv;
+            S sv0 = f.sv[0], sv1 = f.sv[1], sv2 = f.sv[2], cbv = f.cbv, ssv = f.ssv, cbcv = f.cbcv, scv = f.scv;
+            std::u32string b32cv = f.b32cv;
             std::u16string b16v = f.b16v; std::u32string b32v = f.b32v; std::wstring bwv = f.bwv;
             g_k = static_cast<int64_t>(k);
             vrt::cur_rewind();
@@ -402,6 +419,7 @@ static void body()
             if (!completed) {
                 // restore the pre-fault expectations (the op body may have updated some before the throwing statement)
                 f.sv[0] = sv0; f.sv[1] = sv1; f.sv[2] = sv2; f.cbv = cbv; f.ssv = ssv; f.b16v = b16v; f.b32v = b32v; f.bwv = bwv;
+                f.cbcv = cbcv; f.scv = scv; f.b32cv = b32cv;
             }
             f.verify_after_fault();
             f.teardown();
